@@ -78,6 +78,22 @@ def check(run):
     texts = [small_value().encode() for _ in range(n // 2)]
     texts += [text for _, text in jsonchecks.valid_docs(rnd, n // 4, max_depth=3)]
     fl = [gen_json.filters(rnd).encode() for _ in range(len(texts))]
+    # a key that occurs twice with values of different kinds, under a filter entry that admits only one of the kinds: the
+    # member is what the LAST occurrence projects to (null when its kind is not admitted), never a leftover of the first
+    for _ in range(n // 20):
+        k = rnd.choice(["a", "b", "ab"])
+        vals = [rnd.choice(['{"x":1,"y":2}', '[1,{"x":2}]', '"s"', '5', 'null', '{"x":[3]}', '[]', '{}']) for _ in range(rnd.choice([2, 2, 3]))]
+        inner = ",".join('"%s":%s' % (k, v) for v in vals)
+        if rnd.random() < 0.5:
+            inner = '"z":0,' + inner + ',"c":true'
+        text = "{" + inner + "}"
+        if rnd.random() < 0.3:
+            text = '[%s,{"n":%s}]' % (text, text)
+        fentry = rnd.choice(['{"x":true}', '[true]', '[{"x":true}]', 'true', '{"y":true,"x":[true]}'])
+        f = rnd.choice(['{"%s":%s}' % (k, fentry), '{"*":%s}' % fentry, '{"%s":%s,"*":true}' % (k, fentry), '[{"%s":%s}]' % (k, fentry),
+                        '[{"%s":%s,"n":{"%s":%s}}]' % (k, fentry, k, fentry)])
+        texts.append(text.encode())
+        fl.append(f.encode())
     # the filter documents as the library sees them (through the unfiltered reader)
     flines = ["J 50 - " + hx(f) for f in fl]
     fmo, _ = vlib.run_sharded(model, flines, None, 600, ["CFG " + cfg])
